@@ -10,6 +10,7 @@ package main
 // lock monitor.
 
 import (
+	"strings"
 	"fmt"
 	"os"
 	"sync"
@@ -49,8 +50,14 @@ func runWindow(seed uint64, cas int, tier string, prop string) *WindowRes {
 		{"RMDIR d2/low", func(w map[string][]byte) *Op { return &Op{K: OpRmdir, H: w["d2"], Name: "low"} }},
 		{"RENAME d1/a -> d2/n (free name)", func(w map[string][]byte) *Op { return &Op{K: OpRename, H: w["d1"], Name: "a", H2: w["d2"], Name2: "n"} }},
 		{"RENAME d2/low -> d1/low (directory to a free name)", func(w map[string][]byte) *Op { return &Op{K: OpRename, H: w["d2"], Name: "low", H2: w["d1"], Name2: "low"} }},
+		// creations that are handed a half-freed inode number (the server was
+		// stopped in the middle of a big free): they abort, finish the free and
+		// lock their directory again
+		{"HALF CREATE d1/nf", func(w map[string][]byte) *Op { return &Op{K: OpCreate, H: w["d1"], Name: "nf"} }},
+		{"HALF MKDIR d1/nd", func(w map[string][]byte) *Op { return &Op{K: OpMkdir, H: w["d1"], Name: "nd"} }},
+		{"HALF SYMLINK d2/nl", func(w map[string][]byte) *Op { return &Op{K: OpSymlink, H: w["d2"], Name: "nl", Target: "tt"} }},
 	}
-	nscripts := 13
+	nscripts := 14
 	idx := 0
 	for ai := range aops {
 		for sc := 0; sc < nscripts; sc++ {
@@ -100,6 +107,16 @@ func oneWindow(seed uint64, aname string, aop func(map[string][]byte) *Op, scrip
 			w[as] = r.FH
 		}
 	}
+	half := strings.HasPrefix(aname, "HALF")
+	if half {
+		// a big file with the smallest number; it is removed at the end of the
+		// setup and the server is stopped before the background free has finished
+		mk(OpCreate, srv.Root, "doomed", "doomed")
+		for k := 0; k < 20 && w["doomed"] != nil; k++ {
+			s.nextUid++
+			s.exec(&Op{K: OpWrite, H: w["doomed"], Off: uint64(k) * 64 * BlockSize, Count: 64 * BlockSize, DataLen: 64 * BlockSize, Uid: s.nextUid, Stable: 0})
+		}
+	}
 	// files first (small numbers), then directories
 	mk(OpCreate, srv.Root, "a", "a")
 	mk(OpCreate, srv.Root, "f2", "b")
@@ -119,7 +136,14 @@ func oneWindow(seed uint64, aname string, aop func(map[string][]byte) *Op, scrip
 	mk(OpMkdir, w["d2"], "low", "low")
 	// and once more, so that a directory created inside the window reuses the
 	// number of a directory removed inside the window
-	s.restart()
+	if half {
+		s.exec(&Op{K: OpRemove, H: srv.Root, Name: "doomed"})
+		s.srv.Flush()
+		s.srv.N.Crash() // the shrinker stops after its current transaction, then a clean shutdown
+		s.srv = StartSrv(s.srv.D, s.srv.Opts)
+	} else {
+		s.restart()
+	}
 	srv = s.srv
 	if len(sres.Viol) > 0 || w["d1"] == nil || w["d2"] == nil {
 		viol("lin", "setup failed: %v", sres.Viol)
@@ -153,6 +177,8 @@ func oneWindow(seed uint64, aname string, aop func(map[string][]byte) *Op, scrip
 		B = []*Op{{K: OpCreate, H: d2, Name: "n"}, {K: OpRemove, H: d2, Name: "n"}, {K: OpRemove, H: d1, Name: "a"}, {K: OpCreate, H: d1, Name: "a"}}
 	case 12: // the target directory is removed and its number handed out again
 		B = []*Op{{K: OpRemove, H: d2, Name: "b"}, {K: OpRmdir, H: d2, Name: "low"}, {K: OpRmdir, H: root, Name: "d2"}, {K: OpMkdir, H: root, Name: "e2"}, {K: OpMkdir, H: root, Name: "e3"}, {K: OpMkdir, H: root, Name: "e4"}}
+	case 13: // d1 is emptied and removed; its number is handed out again (third of the new directories)
+		B = []*Op{{K: OpRemove, H: d1, Name: "a"}, {K: OpRemove, H: d1, Name: "c2"}, {K: OpRmdir, H: root, Name: "d1"}, {K: OpMkdir, H: root, Name: "e"}, {K: OpMkdir, H: root, Name: "e2"}, {K: OpMkdir, H: root, Name: "e3"}, {K: OpMkdir, H: root, Name: "e4"}}
 	case 8: // the sub-directory is replaced
 		B = []*Op{{K: OpRmdir, H: d2, Name: "low"}, {K: OpMkdir, H: d2, Name: "low"}}
 	}
